@@ -21,6 +21,7 @@ unsigned long sim_crash_before;
 int sim_threads;
 int sim_gate_close;
 const char *sim_pending_call[SIM_MAXPROC];
+const char *sim_pending_arg[SIM_MAXPROC];     /* path argument of the pending call (open, link target, unlink, stat, rename target), else 0 */
 static int world_crashed;
 static void (*sig_handler_tab[SIM_MAXPROC][65])(int);
 #define sig_handler sig_handler_tab
@@ -214,7 +215,7 @@ static int sim_gate(const char *what, int *err) {
     running = -1; pthread_cond_broadcast(&cv);
     while (running != p->idx) pthread_cond_wait(&cv, &mu);
     pthread_mutex_unlock(&mu);
-    sim_pending_call[p->idx] = 0;
+    sim_pending_call[p->idx] = 0; sim_pending_arg[p->idx] = 0;
   }
   if (world_crashed) { p->crashed = 1; proc_leave(p); }
   W.ncalls_total++;
@@ -407,6 +408,7 @@ int open(const char *path, int flags, ...) {
   const char *kind = (flags & O_EXCL) ? "open_excl" : (flags & O_APPEND) ? "open_append" : (flags & O_TRUNC) ? "open_trunc"
                      : ((flags & O_ACCMODE) == O_WRONLY) ? "open_write" : "open_read";
   size_t al = strlen(abs); int istrig = al >= 12 && !strcmp(abs + al - 12, "lock/trigger");
+  sim_pending_arg[p->idx] = abs;
   GATE(istrig ? (((flags & O_ACCMODE) == O_WRONLY) ? "open_trigger_w" : "open_trigger_r") : kind);
   if (faulted) { if (ferr == -1) ferr = EIO; sim_tr("P%d #%d %s %s -> -1 e%d FAULT\n", p->idx, p->ncalls, kind, rel(abs), ferr); FAIL(ferr); }
   int ino = sim_lookup(abs);
@@ -599,6 +601,7 @@ off_t lseek(int fd, off_t off, int whence) {
 int link(const char *a, const char *b) {
   if (!sim_on) { static int (*f)(const char *, const char *); if (!f) f = real("link"); return f(a, b); }
   simproc *p = sim_cur; char pa[200], pb[200]; normpath(p->cwd, a, pa, sizeof pa); normpath(p->cwd, b, pb, sizeof pb);
+  sim_pending_arg[p->idx] = pb;
   GATE(strstr(pb, "/queue/todo/") ? "link_todo" : "link");
   if (faulted) { sim_tr("P%d #%d link %s %s -> -1 e%d FAULT\n", p->idx, p->ncalls, rel(pa), rel(pb), ferr == -1 ? EIO : ferr); FAIL(ferr == -1 ? EIO : ferr); }
   int ino = sim_lookup(pa); int e = 0;
@@ -612,6 +615,7 @@ int link(const char *a, const char *b) {
 int unlink(const char *a) {
   if (!sim_on) { static int (*f)(const char *); if (!f) f = real("unlink"); return f(a); }
   simproc *p = sim_cur; char pa[200]; normpath(p->cwd, a, pa, sizeof pa);
+  sim_pending_arg[p->idx] = pa;
   GATE("unlink");
   if (faulted) { sim_tr("P%d #%d unlink %s -> -1 e%d FAULT\n", p->idx, p->ncalls, rel(pa), ferr == -1 ? EIO : ferr); FAIL(ferr == -1 ? EIO : ferr); }
   int di = dent_index(pa);
@@ -624,6 +628,7 @@ int unlink(const char *a) {
 int rename(const char *a, const char *b) {
   if (!sim_on) { static int (*f)(const char *, const char *); if (!f) f = real("rename"); return f(a, b); }
   simproc *p = sim_cur; char pa[200], pb[200]; normpath(p->cwd, a, pa, sizeof pa); normpath(p->cwd, b, pb, sizeof pb);
+  sim_pending_arg[p->idx] = pb;
   GATE("rename");
   if (faulted) { sim_tr("P%d #%d rename %s %s -> -1 e%d FAULT\n", p->idx, p->ncalls, rel(pa), rel(pb), ferr == -1 ? EIO : ferr); FAIL(ferr == -1 ? EIO : ferr); }
   int di = dent_index(pa);
@@ -645,6 +650,7 @@ static void fill_stat(struct stat *st, int ino) {
 }
 static int do_stat(const char *a, struct stat *st, const char *nm) {
   simproc *p = sim_cur; char pa[200]; normpath(p->cwd, a, pa, sizeof pa);
+  sim_pending_arg[p->idx] = pa;
   GATE(nm);
   if (faulted) { sim_tr("P%d #%d %s %s -> -1 e%d FAULT\n", p->idx, p->ncalls, nm, rel(pa), ferr == -1 ? EIO : ferr); FAIL(ferr == -1 ? EIO : ferr); }
   int ino = sim_lookup(pa);
